@@ -117,8 +117,15 @@ fn main() {
             if let Ok(rd) = std::fs::read_dir("/verif/target/scratch") {
                 let prefix = format!("{}-", id.to_lowercase());
                 for e in rd.flatten() {
-                    if e.file_name().to_string_lossy().starts_with(&prefix) {
-                        let _ = std::fs::remove_dir_all(e.path());
+                    let name = e.file_name().to_string_lossy().to_string();
+                    if let Some(rest) = name.strip_prefix(&prefix) {
+                        // <id>-<pid>[-...]: leave the directories of processes that are still alive
+                        // (another run of the same check)
+                        let pid: String = rest.chars().skip_while(|c| !c.is_ascii_digit()).take_while(|c| c.is_ascii_digit()).collect();
+                        let alive = !pid.is_empty() && pid != std::process::id().to_string() && std::path::Path::new(&format!("/proc/{}", pid)).exists();
+                        if !alive {
+                            let _ = std::fs::remove_dir_all(e.path());
+                        }
                     }
                 }
             }
